@@ -308,7 +308,9 @@ func (f *file) WriteBlob(p blob.Blob) (n int, err error) {
 		off = int64(f.Size())
 	}
 	n, err = f.writeBlobAt("write", p, off)
-	f.offset = off + int64(n)
+	if n > 0 {
+		f.offset = off + int64(n) // a write of nothing leaves the offset alone, with O_APPEND too
+	}
 	return
 }
 
@@ -335,6 +337,9 @@ func (f *file) writeBlobAt(op string, p blob.Blob, off int64) (n int, err error)
 	}
 	if off > math.MaxInt64-int64(p.Len()) {
 		return 0, &hackpadfs.PathError{Op: op, Path: f.path, Err: hackpadfs.ErrInvalid}
+	}
+	if p.Len() == 0 {
+		return 0, nil // writing nothing changes nothing: in particular it does not extend the file up to 'off'
 	}
 	data, err := f.Data()
 	if err != nil {
